@@ -1,1 +1,81 @@
-def hello := "world"
+/-
+  Basic vocabulary of the model: bytes, CAN messages, Python exception classes,
+  IsoTpError classes, the event log.
+  No imports outside core Lean (the driver must link).
+-/
+namespace Isotp
+
+abbrev Bytes := List UInt8
+
+/-- Python exception classes that can escape from a public method. -/
+inductive PyExc where
+  | ValueError | RuntimeError | AttributeError | AssertionError | OverflowError
+  | TypeError | IndexError | NotImplementedError
+  | BlockingSendTimeout | BlockingSendFailure
+  deriving DecidableEq, Repr, Inhabited
+
+def PyExc.name : PyExc → String
+  | .ValueError => "ValueError" | .RuntimeError => "RuntimeError"
+  | .AttributeError => "AttributeError" | .AssertionError => "AssertionError"
+  | .OverflowError => "OverflowError" | .TypeError => "TypeError"
+  | .IndexError => "IndexError" | .NotImplementedError => "NotImplementedError"
+  | .BlockingSendTimeout => "BlockingSendTimeout" | .BlockingSendFailure => "BlockingSendFailure"
+
+/-- The `isotp.errors.IsoTpError` subclasses handed to the error handler. -/
+inductive Err where
+  | BadGenerator | FlowControlTimeout | ConsecutiveFrameTimeout | InvalidCanData
+  | UnexpectedFlowControl | UnexpectedConsecutiveFrame
+  | InterruptedWithSingleFrame | InterruptedWithFirstFrame
+  | WrongSequenceNumber | UnsupportedWaitFrame | MaximumWaitFrameReached
+  | FrameTooLong | ChangingInvalidRXDL | MissingEscapeSequence
+  | InvalidCanFdFirstFrameRXDL | Overflow
+  deriving DecidableEq, Repr, Inhabited
+
+def Err.name : Err → String
+  | .BadGenerator => "BadGeneratorError"
+  | .FlowControlTimeout => "FlowControlTimeoutError"
+  | .ConsecutiveFrameTimeout => "ConsecutiveFrameTimeoutError"
+  | .InvalidCanData => "InvalidCanDataError"
+  | .UnexpectedFlowControl => "UnexpectedFlowControlError"
+  | .UnexpectedConsecutiveFrame => "UnexpectedConsecutiveFrameError"
+  | .InterruptedWithSingleFrame => "ReceptionInterruptedWithSingleFrameError"
+  | .InterruptedWithFirstFrame => "ReceptionInterruptedWithFirstFrameError"
+  | .WrongSequenceNumber => "WrongSequenceNumberError"
+  | .UnsupportedWaitFrame => "UnsupportedWaitFrameError"
+  | .MaximumWaitFrameReached => "MaximumWaitFrameReachedError"
+  | .FrameTooLong => "FrameTooLongError"
+  | .ChangingInvalidRXDL => "ChangingInvalidRXDLError"
+  | .MissingEscapeSequence => "MissingEscapeSequenceError"
+  | .InvalidCanFdFirstFrameRXDL => "InvalidCanFdFirstFrameRXDL"
+  | .Overflow => "OverflowError"
+
+/-- A CAN message, as `isotp.CanMessage`. -/
+structure CanMsg where
+  id   : Nat
+  ext  : Bool
+  data : Bytes
+  dlc  : Nat := 0
+  fd   : Bool := false
+  brs  : Bool := false
+  deriving DecidableEq, Repr, Inhabited
+
+inductive Tat where
+  | physical | functional
+  deriving DecidableEq, Repr, Inhabited
+
+/-- Observable events of a layer, in the order in which the Python harness sees them
+    (`txfn`, `error_handler`, `SendRequest.complete`, `rx_queue.put`, generator pulls). -/
+inductive Ev where
+  | tx (t : Nat) (m : CanMsg)          -- handed to txfn at time t
+  | err (t : Nat) (e : Err)            -- handed to the error handler
+  | done (id : Nat) (ok : Bool)        -- SendRequest.complete(ok)
+  | deliver (p : Bytes)                -- rx_queue.put(p)
+  | pull (id : Nat) (n : Nat)          -- n values pulled from the generator of request id
+  deriving DecidableEq, Repr, Inhabited
+
+/-- `n`-th byte of a list as a Nat (0 when absent; only used under a length guard). -/
+def byteAt (d : Bytes) (i : Nat) : Nat := (d.getD i 0).toNat
+
+def u8 (n : Nat) : UInt8 := UInt8.ofNat n
+
+end Isotp
